@@ -138,15 +138,30 @@ def case_strategy(draw, audit=False):
         for r in range(3):
             if not any(mem[r]):
                 mem[r][draw(st.integers(0, narr - 1))] = True
+        case['member_how'] = draw(st.sampled_from(['mutate', 'reset']))
         ad = [i for i, a in enumerate(arrays) if 'dt_adapt' in a['props']]
         if ad and not any(mem[0][i] for i in ad) and any(
                 mem[r][i] for r in (1, 2) for i in ad):
-            # excluded: the first dt_adapt array would enter the evaluator
-            # after the first call (see ASSUMPTIONS)
-            mem[0][ad[0]] = True
-            case['xadapt'] = 1
+            if case['member_how'] == 'mutate':
+                # not generated: the first dt_adapt array would enter by an
+                # in-place edit of the evaluator's array list, which no
+                # setter sees (see ASSUMPTIONS)
+                mem[0][ad[0]] = True
+                case['xadapt'] = 1
+            else:
+                # make the late entry count: the array holds particles with
+                # positive dt_adapt when it enters and every round is run
+                case['adapt_enters_later'] = 1
+                case['nrounds'] = 3
+                for i in ad:
+                    a = arrays[i]
+                    if a['n'] - a['nghost'] > 0:
+                        a['present'] = [True, True, True]
+                        for r in range(3):
+                            a['rounds'][r]['dt_adapt'] = [
+                                abs(v) + 10.0 ** -3
+                                for v in a['rounds'][r]['dt_adapt']]
         case['members'] = mem
-        case['member_how'] = draw(st.sampled_from(['mutate', 'reset']))
     elif hist == 'props':
         for a in arrays:
             a['has'] = [{c: draw(st.sampled_from([True, True, False]))
@@ -392,7 +407,9 @@ def check(case):
         labels.append('fixed_h')
     integ.set_fixed_h(case['fixed_h'])
     if case.get('xadapt'):
-        labels.append('excluded:dt_adapt_enters_later')
+        labels.append('excluded:dt_adapt_enters_by_list_edit')
+    if case.get('adapt_enters_later'):
+        labels.append('dt_adapt_enters_later')
     solver = None
     spar = bool(case.get('spar'))
     if spar and case['via_solver'] and case.get('warm', 0) and \
